@@ -48,6 +48,7 @@ def instances(tier):
         out.append({"kind": "template", "gen": g, "free": 1, "which": "ids", "unicast": True})
         out.append({"kind": "duplicate", "gen": g})
         out.append({"kind": "others", "gen": g})
+        out.append({"kind": "others", "gen": g, "then_valid": True})   # something else arrives first, the console's answer after it
         for n in ([5] if tier == "quick" else [6, 8, 10, 12, 14, 16, 20]):
             out.append({"kind": "free", "gen": g, "n": n})
         if tier == "thorough":
@@ -300,6 +301,12 @@ def run(ctx, p):
                      list(b"10.0.0.9,AA11,AirTouch%d,24" % g) + [0xFF, 0xFE] + (list(b",Home") if g == 5 else []),   # invalid text
                      list(b"AirTouch%d" % g)]
             datagrams.append((g, cands[k], 0.25, None))
+            if p.get("then_valid"):
+                items = list(b"10.0.0.9,AA11,AirTouch%d,2468" % g) + (list(b",Home") if g == 5 else [])
+                fields = {"host": list(b"10.0.0.9"), "serial": list(b"AA11"), "airtouch_id": list(b"2468")}
+                if g == 5:
+                    fields["name"] = list(b"Home")
+                datagrams.append((g, items, 0.375, (fields, True)))
         elif kind == "free":
             items = [ctx.byte(f"f{i}") for i in range(p["n"])]
             # long enough free datagrams can be genuine responses (",,AirTouch4," is one, with empty fields): those that carry
